@@ -39,6 +39,7 @@ pub struct Args {
     pub replay: Option<String>,
     pub worker: Option<(u64, u64)>,
     pub only: Option<(u64, u64)>,
+    pub until: Option<(u64, u64)>,
     pub seed: u64,
     pub budget: Duration,
     pub workers: u64,
@@ -58,6 +59,7 @@ fn parse_args() -> Args {
     let mut replay = None;
     let mut worker = None;
     let mut only = None;
+    let mut until = None;
     let mut workers: u64 = std::thread::available_parallelism().map(|n| n.get() as u64).unwrap_or(4).min(16);
     if let Ok(w) = std::env::var("VERIF_WORKERS") {
         if let Ok(w) = w.parse::<u64>() {
@@ -92,6 +94,12 @@ fn parse_args() -> Args {
                 let (a, b) = s.split_once(':').unwrap_or_else(|| usage());
                 only = Some((a.parse().unwrap_or_else(|_| usage()), b.parse().unwrap_or_else(|_| usage())));
             }
+            "--until" => {
+                i += 1;
+                let s = argv.get(i).cloned().unwrap_or_else(|| usage());
+                let (a, b) = s.split_once(':').unwrap_or_else(|| usage());
+                until = Some((a.parse().unwrap_or_else(|_| usage()), b.parse().unwrap_or_else(|_| usage())));
+            }
             "--workers" => {
                 i += 1;
                 workers = argv.get(i).and_then(|s| s.parse().ok()).unwrap_or_else(|| usage());
@@ -107,7 +115,7 @@ fn parse_args() -> Args {
         Tier::Thorough => 1500,
     };
     let budget = std::env::var("VERIF_BUDGET_S").ok().and_then(|s| s.parse::<u64>().ok()).unwrap_or(default_budget);
-    Args { id, tier, replay, worker, only, seed, budget: Duration::from_secs(budget), workers }
+    Args { id, tier, replay, worker, only, until, seed, budget: Duration::from_secs(budget), workers }
 }
 
 fn main() {
@@ -125,6 +133,11 @@ fn main() {
         sup::install_abort_handler();
         sup::install_panic_hook();
         let mut ctx = Ctx::new(&args.id, args.tier, args.seed, w, n, args.only, args.budget);
+        ctx.until = args.until;
+        if args.until.is_some() {
+            // prefix replays are not subject to the wall budget
+            ctx.deadline = ctx.start + std::time::Duration::from_secs(3600);
+        }
         let r = ctx::guard(|| props::run(&args.id, &mut ctx));
         match r {
             Ok(()) => {
